@@ -10,6 +10,7 @@ import (
 	"go/types"
 	"math/big"
 	"regexp"
+	"sort"
 	"strings"
 
 	"golang.org/x/tools/go/packages"
@@ -471,25 +472,40 @@ func (x *Exec) strLit(s string) Val {
 }
 
 func (x *Exec) importedPkg(pkg *packages.Package, name string) *packages.Package {
-	// by alias in any file, then by package name
+	// effective local names over all files of the package; deterministic choice
+	cands := map[string]bool{}
 	for _, f := range pkg.Syntax {
 		for _, im := range f.Imports {
 			path := strings.Trim(im.Path.Value, "\"")
-			if im.Name != nil && im.Name.Name == name {
-				return x.eng.pkgs[path]
+			p := x.eng.pkgs[path]
+			if im.Name != nil {
+				if im.Name.Name == name {
+					cands[path] = true
+				}
+			} else if p != nil && p.Name == name {
+				cands[path] = true
 			}
 		}
 	}
-	for path, p := range pkg.Imports {
-		if p.Name == name {
-			return x.eng.pkgs[path]
+	if len(cands) == 0 {
+		for path, p := range x.eng.pkgs {
+			if p.Name == name {
+				cands[path] = true
+			}
 		}
 	}
-	// fall back: any loaded package with that name
-	for _, p := range x.eng.pkgs {
-		if p.Name == name {
-			return p
+	var paths []string
+	for p := range cands {
+		paths = append(paths, p)
+	}
+	sort.Strings(paths)
+	for _, p := range paths {
+		if strings.HasPrefix(p, "github.com/alephium/wormhole-fork") {
+			return x.eng.pkgs[p]
 		}
+	}
+	if len(paths) > 0 {
+		return x.eng.pkgs[paths[0]]
 	}
 	return nil
 }
